@@ -18,6 +18,7 @@ Require Import Gram.Model.Term Gram.Model.DeBruijn Gram.Model.Eval Gram.Proofs.R
 Require Import Gram.Model.Parser Gram.Model.ParserPost Gram.Spec.ScopeSpec Gram.Proofs.AlphaProofs.
 Require Import Gram.Spec.Typing Gram.Oracle.Infer Gram.Proofs.CtxProofs Gram.Proofs.WeakenProofs Gram.Proofs.WeakenInfer Gram.Proofs.RewriteTyping.
 Require Gram.Proofs.EvalEnvGroups Gram.Proofs.ReorderDefs Gram.Proofs.PGSimple Gram.Proofs.ReorderTyping.
+Require Gram.Model.Token Gram.Model.Grammar Gram.Proofs.ReassocProofs Gram.Proofs.Unambiguous Gram.Proofs.LayoutParens.
 
 Theorem C19_if_true : forall e e', step (TIf TTrue e e') = Some e.
 Proof. exact if_true_step. Qed.
@@ -132,4 +133,38 @@ Theorem C19_exchanges_anywhere_simply_typed : forall t t', ReorderTyping.swaps_a
 Proof. exact ReorderTyping.checkS_swaps_at. Qed.
 Check C19_exchanges_anywhere_simply_typed : forall t t', ReorderTyping.swaps_at t t' -> forall C T, PGSimple.checkS C t = Some T -> PGSimple.checkS C t' = Some T.
 Print Assumptions C19_exchanges_anywhere_simply_typed.
+
+
+(* Redundant parentheses (Proofs/LayoutParens.v): parenthesising the tokens of any sub-derivation of an accepted program -
+   the whole program, an atom, an already parenthesised group, a left operand, the right-hand side of a definition, a
+   function body, a branch, an annotation, a right operand of ANOTHER kind - gives an accepted token list whose raw and
+   re-associated trees are the same up to the group flag, names and literals included. The one excluded position is
+   necessarily excluded: the unparenthesised tail of a chain of the same kind (`a - b - c` versus `a - (b - c)`).
+   `spec_all_flags`: the only group flags the re-association passes ever read are those of chain nodes that are right
+   operands of a node of the same chain kind. *)
+Theorem C19_parentheses_are_redundant : forall toks memo raw m s d top o len d2 lp rp,
+  Parser.parse_stage1 toks memo = (Parser.S1Tree raw, m, s) ->
+  Unambiguous.dt_ok d -> Unambiguous.root d = Grammar.Term -> Unambiguous.dyield d = map Parser.pk toks ->
+  LayoutParens.PS top o len d d2 -> Parser.pk lp = Token.KLeftParen -> Parser.pk rp = Token.KRightParen ->
+  exists raw2 m2 s2, Parser.parse_stage1 (LayoutParens.ins lp rp o len toks) memo = (Parser.S1Tree raw2, m2, s2) /\
+    ReassocProofs.strip raw2 = ReassocProofs.strip raw /\ ReassocProofs.strip (ParserPost.reassociate raw2) = ReassocProofs.strip (ParserPost.reassociate raw).
+Proof. exact LayoutParens.parens_redundant. Qed.
+Check C19_parentheses_are_redundant : forall toks memo raw m s d top o len d2 lp rp,
+  Parser.parse_stage1 toks memo = (Parser.S1Tree raw, m, s) ->
+  Unambiguous.dt_ok d -> Unambiguous.root d = Grammar.Term -> Unambiguous.dyield d = map Parser.pk toks ->
+  LayoutParens.PS top o len d d2 -> Parser.pk lp = Token.KLeftParen -> Parser.pk rp = Token.KRightParen ->
+  exists raw2 m2 s2, Parser.parse_stage1 (LayoutParens.ins lp rp o len toks) memo = (Parser.S1Tree raw2, m2, s2) /\
+    ReassocProofs.strip raw2 = ReassocProofs.strip raw /\ ReassocProofs.strip (ParserPost.reassociate raw2) = ReassocProofs.strip (ParserPost.reassociate raw).
+Print Assumptions C19_parentheses_are_redundant.
+
+Theorem C19_parenthesising_the_whole_program : forall toks memo raw m s lp rp,
+  Parser.parse_stage1 toks memo = (Parser.S1Tree raw, m, s) -> Parser.pk lp = Token.KLeftParen -> Parser.pk rp = Token.KRightParen ->
+  exists raw2 m2 s2, Parser.parse_stage1 (lp :: toks ++ [rp]) memo = (Parser.S1Tree raw2, m2, s2) /\
+    ReassocProofs.strip (ParserPost.reassociate raw2) = ReassocProofs.strip (ParserPost.reassociate raw).
+Proof. exact LayoutParens.parens_whole_program. Qed.
+Check C19_parenthesising_the_whole_program : forall toks memo raw m s lp rp,
+  Parser.parse_stage1 toks memo = (Parser.S1Tree raw, m, s) -> Parser.pk lp = Token.KLeftParen -> Parser.pk rp = Token.KRightParen ->
+  exists raw2 m2 s2, Parser.parse_stage1 (lp :: toks ++ [rp]) memo = (Parser.S1Tree raw2, m2, s2) /\
+    ReassocProofs.strip (ParserPost.reassociate raw2) = ReassocProofs.strip (ParserPost.reassociate raw).
+Print Assumptions C19_parenthesising_the_whole_program.
 
